@@ -10,6 +10,10 @@ import Gama.Lemmas.ReviseView
 import Gama.Lemmas.ReviseLoopCard
 import Gama.Lemmas.ReviseSwap
 import Gama.Lemmas.ReviseField
+import Gama.Lemmas.ReviseAbsReport
+import Gama.Lemmas.ReviseBridge
+import Gama.Lemmas.ReviseSolve
+import Gama.Lemmas.ProjectEquationsExample
 import Mathlib.Analysis.SpecialFunctions.Sqrt
 namespace Gama.Props.C14
 open Gama Gama.Rev
@@ -456,5 +460,197 @@ example : (0 : Rat) < weightFactor 10 50 ∧ Spec.angular .direction = true ∧
 example : assemble (σ := Nat × List Nat) (τ := Unit)
     (fun st _ ps => ((st.1.1 + 1, st.1.2 ++ ps.filterMap (·.map (·.id))), ())) (fun _ => ()) (0, []) (revise exNet)
     = (4, [1, 2, 1, 3, 1, 3, 3, 2]) := by decide
+
+/-! ## round 7 — the absolute-term stage is reported; the deleted input is stable; one revision rule;
+     the network-level solution -/
+
+/-- **What `remove_huge_abs_terms()` removes is what the program lists.**  `s` = the state after the
+    revision, `r = exclude …` = the state gama-local adjusts.  `absRows` are the rows of the table
+    "Outlying absolute terms" as `OutlyingAbsoluteTerms` prints them (nothing when the gate
+    `huge_abs_terms()` is closed; else the 1-based number `i` and the observation for every `i` with
+    `test_abs_term(i) ≠ 0`, `absTerms`), printed by gama-local right before `remove_huge_abs_terms()`.
+    (1) The observations that are active before the stage and passive after it are EXACTLY the
+        observations of those rows, in order (so: made passive by the stage ⇔ its `absTerms` entry is
+        non-zero, i.e. its consulted entry is beyond tol-abs, and the gate is open);
+    (2) each of them is in `rejected_observations()` (`removed_obs_`, rebuilt by the
+        `revision_observations()` that `update(Observations)` triggers) of the adjusted state;
+    (3)–(7) for the adjusted state: passive ⇒ in `removed_obs_`, active ⇒ in `revised_obs_`, `pocmer_`
+        counts the active ones, `pocmer_ + #removed_obs_ = #observations`, `activeObs()` per cluster. -/
+theorem C14_reported_abs [Scalar K] (n : Net K) (tol : K) (rhs bh : List K) :
+    let s := revise n
+    let r := exclude n tol rhs bh
+    madePassive (allObs s.cls) (allObs (removeHuge s tol rhs bh).cls) =
+      (absRows s tol rhs bh).map (fun q => (q.2, { q.2 with active := false })) ∧
+    (∀ q ∈ absRows s tol rhs bh, ({ q.2 with active := false } : Obs K) ∈ r.rejected) ∧
+    (∀ c ∈ r.cls, ∀ o ∈ c.obs, o.active = false → o ∈ r.rejected) ∧
+    (∀ c ∈ r.cls, ∀ o ∈ c.obs, o.active = true → o ∈ r.revised) ∧
+    r.pocmer = r.revised.length ∧
+    r.pocmer + r.rejected.length = (allObs r.cls).length ∧
+    (∀ c ∈ r.cls, c.actObs = (c.obs.filter (·.active)).length) := by
+  intro s r
+  obtain ⟨h1, h2⟩ := reported_abs n tol rhs bh
+  obtain ⟨h3, h4, h5, h6, h7, _⟩ := revisionObservations_reports (removeHuge (revise n) tol rhs bh)
+  exact ⟨h1, h2, h3, h4, h5, h6, h7⟩
+
+/-- … and the rows are read off `absTerms` (the executed listing): without their numbers they are the
+    revised observations whose consulted entry is outlying, when the gate is open. -/
+theorem C14_abs_rows_are_outlying [Scalar K] (n : Net K) (tol : K) (rhs bh : List K) :
+    (absRows n tol rhs bh).map (·.2) =
+      if hugeFlag n tol rhs then
+        ((n.revised.zip (consulted rhs bh)).filter (fun q => outlying n.pts tol q.1 q.2)).map (·.1)
+      else [] :=
+  absRows_obs n tol rhs bh
+
+/-- **Stability: on the input with the excluded items deleted the absolute-term stage excludes nothing
+    more.**  `fl` marks, per entry of `revised_obs_` of the full input (= per row of the system), the
+    observations that are no longer active in the adjusted state.  If the vectors of the deleted input
+    are the kept entries of the vectors of the full input — `rhs'` for the gate and the CONSULTED vector
+    (`consulted`: the member `b`, homogenised, as the tree reads now — known finding C14-F1) for the
+    walk — then `revised_obs_` of the deleted input is the kept part of the full input's and
+    `remove_huge_abs_terms()` leaves the revised deleted input as it is.
+    For `rhs_` the hypothesis is "the absolute term of an observation depends on that observation and
+    its points only"; for the homogenised `b` it holds in clusters without correlations
+    (`C14_abs_stage_stable_uncorrelated`) and FAILS in general for correlated blocks (the Cholesky
+    factor of a principal sub-matrix is not the sub-matrix of the factor; replay
+    corpus/C14/f1-correlated-block.gkf) — there what is needed, and suffices by the same proof, is
+    that no kept observation is outlying against its NEW homogenised entry. -/
+theorem C14_abs_stage_stable [Scalar K] (n : Net K) (tol : K) (rhs bh rhs' bh' : List K) :
+    let s := revise n
+    let r := exclude n tol rhs bh
+    let d := deleteItems n (excluded r)
+    let fl := droppedMask (allObs s.cls) (allObs r.cls)
+    rhs' = dropFlagged rhs fl → consulted rhs' bh' = dropFlagged (consulted rhs bh) fl →
+    (revise d).revised = dropFlagged s.revised fl ∧
+    removeHuge (revise d) tol rhs' bh' = revise d :=
+  removeHuge_deleted_stable n tol rhs bh rhs' bh'
+
+/-- Clusters without correlations: the homogenised vector of the deleted input IS the kept part of the
+    full input's (`homDiag`: every entry is computed from its own standard deviation and absolute term),
+    so the stage is stable whichever vector the tree consults. -/
+theorem C14_abs_stage_stable_uncorrelated [Scalar K] (n : Net K) (tol m0 : K) (stdevs rhs : List K) :
+    let bh := homDiag m0 stdevs rhs
+    let s := revise n
+    let r := exclude n tol rhs bh
+    let d := deleteItems n (excluded r)
+    let fl := droppedMask (allObs s.cls) (allObs r.cls)
+    removeHuge (revise d) tol (dropFlagged rhs fl) (homDiag m0 (dropFlagged stdevs fl) (dropFlagged rhs fl)) = revise d := by
+  intro bh s r d fl
+  refine (removeHuge_deleted_stable n tol rhs bh _ _ rfl ?_).2
+  unfold consulted consultedOf
+  cases Gen.absVec
+  · exact (dropFlagged_zipWith (homEntry m0) stdevs rhs _).symm
+  · rfl
+
+/-- **ONE REVISION RULE.**  `PE.revise` — the first step of the executed model of
+    `project_equations()` (`drv_pe`; hand-written `MinX.isRevised` of C08) — and C14's `revise`
+    (regenerated requirement table, regenerated target loop) are the same function through the
+    dictionary `RevPE.netOf` (points named by their position in `PD`, `StandPoint` = `stand.isSome`), for
+    every network whose directions live in stand-point clusters (`DirInStand`, the C++ constructor
+    invariant; necessary: example below):
+    (1) the points are left alone, (2) every cluster gets the same `active()` flags (`updateCl` =
+    `Cluster::update()`), (3) `revised_obs_` of the executed model IS `revised_obs_` of C14's model,
+    (4) the views the adjustment reads coincide — so `C14_excluded_iff_reason`, `C14_direction_set_rule_exact`,
+    `C14_reported_observations`, `C14_equals_deletion_independent` speak about the observations the
+    executed `project_equations()` linearises. -/
+theorem C14_revision_is_project_equations_revision [Zero K] (net : PE.Net K) (h : RevPE.DirInStand net) :
+    (revise (RevPE.netOf net)).pts = (RevPE.netOf net).pts ∧
+    (revise (RevPE.netOf net)).cls = (RevPE.netOf (PE.revise net)).cls.map updateCl ∧
+    (PE.revisedObs (PE.revise net)).map RevPE.ofN = (revise (RevPE.netOf net)).revised ∧
+    activeView (revise (RevPE.netOf net)) = activeView (RevPE.netOf (PE.revise net)) ∧
+    adjustmentView (revise (RevPE.netOf net)) = adjustmentView (RevPE.netOf (PE.revise net)) :=
+  ⟨(RevPE.revise_bridge net h).1, (RevPE.revise_bridge net h).2, RevPE.revised_bridge net h,
+   (RevPE.views_bridge net h).1, (RevPE.views_bridge net h).2⟩
+
+/-- The requirement table REGENERATED from local_revision.cpp and the hand-written `MinX.Obs.needs` the
+    executed model of `project_equations()` uses give the same verdict on every observation (a change of
+    a `LocalRevision::<type>` body now also breaks the tie of the `PE` model). -/
+theorem C14_requirement_tables_agree [Zero K] (net : PE.Net K) (k : Nat) (o : PE.Ob K) :
+    (localRev (RevPE.netOf net).pts (RevPE.obOf o)).active = MinX.activeBasic (PE.ptsOf net) (o.toMinX k) :=
+  RevPE.localRev_active net k o
+
+/-- **"Results", on the executed model — partial.**
+    (1) `netSolve` (C01's model of `LocalNetwork` in front of the four solvers) reads the assembled
+        problem only through `m`, `n`, the rows, `rhs_`, the cofactor blocks `activeCov()/m0²` of the
+        clusters with active observations, and `min_x_` — for every algorithm;
+    (2) assembling the network WITHOUT its passive observations (`RevPE.delObs`: rows/columns of the
+        covariance matrices taken by C10's `activeCov`, positions of points and clusters kept) succeeds
+        iff assembling the network does, with the same numbering and `unknowns_`, and `netSolve` gives the
+        same answer for every algorithm and every regularisation list.
+    `_partial`, missing for `netSolve alg (pe (deleteItems net excluded)) = netSolve alg (pe net)`:
+    (a) `ActiveCovIdem` is a hypothesis (extensionality of the packed band storage is not proved);
+    (b) one inner call only: `PE.revise (delObs net) = delObs net` for a revised `net` (transfer of
+        `reviseCl_keepCl_obs` through `C14_revision_is_project_equations_revision`) and the
+        `singular_coords` recursion (same `prepare` ⇒ same verdict) are not composed;
+    (c) physically dropping the points with no group left and the emptied clusters renames the unknowns
+        `⟨position, coordinate⟩`: invariance of `Lin.passFrom` under an order-preserving renaming is not
+        proved (C14's `deleteItems` does drop them — id-based — and `C14_equals_deletion_independent_abs`
+        covers that at the level of the views). -/
+theorem C14_pe_solution_ignores_passive_partial [TrigScalar K] (net : PE.Net K) (hI : RevPE.ActiveCovIdem net)
+    (a : PE.Asm K) (h : PE.assemble net = .ok a) :
+    (∀ (alg : Ls.Alg) (np1 np2 : Ls.Net.NetProblem K), np1.m = np2.m → np1.n = np2.n → np1.rows = np2.rows →
+      np1.rhs = np2.rhs → Ls.Net.cofs np1 = Ls.Net.cofs np2 → np1.minx = np2.minx →
+      Ls.Net.netSolve alg np1 = Ls.Net.netSolve alg np2) ∧
+    ∃ a', PE.assemble (RevPE.delObs net) = .ok a' ∧ a'.idx = a.idx ∧ a'.list = a.list ∧
+      ∀ (alg : Ls.Alg) (mx : List Nat),
+        Ls.Net.netSolve alg { a'.np with minx := mx } = Ls.Net.netSolve alg { a.np with minx := mx } :=
+  ⟨fun alg np1 np2 => RevPE.netSolve_congr alg np1 np2, RevPE.netSolve_delObs net hI a h⟩
+
+/-! ### non-vacuity, round 7 -/
+
+/-- `exNet` with the distance 1→3 observed 2 m too long (at `Rat` the model's `sqrt` is the identity, so a
+    distance is "observed" as its square: 9 → 11, 16) -/
+def absNet : Net Rat :=
+  { exNet with cls := [{ stand := true, actObs := 0, cov := fun i j => if i = j then 1 else 0, obs :=
+              [{ ty := .direction, frm := 1, «to» := 2, fs := 0, active := true, value := 0 },
+               { ty := .direction, frm := 1, «to» := 3, fs := 0, active := true, value := 1 },
+               { ty := .distance, frm := 1, «to» := 3, fs := 0, active := true, value := 11 }] },
+            { stand := true, actObs := 0, cov := fun i j => if i = j then 1 else 0, obs :=
+              [{ ty := .direction, frm := 3, «to» := 1, fs := 0, active := true, value := 0 },
+               { ty := .distance, frm := 3, «to» := 2, fs := 0, active := true, value := 16 },
+               { ty := .distance, frm := 3, «to» := 9, fs := 0, active := true, value := 7 }] }] }
+/-- four revised observations; the third (the distance) has a 2000 mm misclosure: gate open, row 3 listed,
+    that observation made passive and reported; the stage on the deleted input (three entries kept) is quiet -/
+example : (absRows (revise absNet) 1000 [1, 1, 2000, 1] [1, 1, 2000, 1]).map (·.1) = [3] := by decide +kernel
+example : (madePassive (allObs (revise absNet).cls) (allObs (removeHuge (revise absNet) 1000 [1, 1, 2000, 1] [1, 1, 2000, 1]).cls)).map
+    (fun q => (q.1.value, q.1.active, q.2.active)) = [(11, true, false)] := by decide +kernel
+example : (exclude absNet 1000 [1, 1, 2000, 1] [1, 1, 2000, 1]).rejected.map (·.value) = [11, 0, 7] := by decide +kernel
+example : droppedMask (allObs (revise absNet).cls) (allObs (exclude absNet 1000 [1, 1, 2000, 1] [1, 1, 2000, 1]).cls)
+    = [false, false, true, false] ∧
+    dropFlagged [(1 : Rat), 1, 2000, 1] [false, false, true, false] = [1, 1, 1] := by decide +kernel
+example : let d := deleteItems absNet (excluded (exclude absNet 1000 [1, 1, 2000, 1] [1, 1, 2000, 1]))
+    (revise d).revised.map (·.value) = [0, 1, 16] ∧
+    (removeHuge (revise d) 1000 [1, 1, 1] [1, 1, 1]).cls.map (fun c => c.obs.map (·.active)) = [[true, true], [true]] := by
+  decide +kernel
+/-- the gate closed: nothing listed, nothing made passive -/
+example : absRows (revise absNet) 100000 [1, 1, 2000, 1] [1, 1, 2000, 1] = [] := by decide +kernel
+
+/-- a `PE` network with two stand-points: station 0 reads points 1, 2 and a distance; station 2 a single
+    direction and a distance; both models give the flags `[[1,1,1],[0,1]]` -/
+def peNet : PE.Net Rat :=
+  { points := [⟨"A", ⟨0, 0, 0, .fixed, .unused⟩⟩, ⟨"B", ⟨3, 4, 0, .fixed, .unused⟩⟩, ⟨"C", ⟨3, 0, 0, .free, .unused⟩⟩]
+    clusters := [⟨some (0, some 0), ⟨3, 0, #[1, 1, 1]⟩,
+                  [⟨true, .direction, 0, 1, 0, 0⟩, ⟨true, .direction, 0, 2, 0, 1⟩, ⟨true, .distance, 0, 2, 0, 3⟩]⟩,
+                 ⟨some (2, some 0), ⟨2, 0, #[1, 1]⟩, [⟨true, .direction, 2, 0, 0, 0⟩, ⟨true, .distance, 2, 1, 0, 4⟩]⟩]
+    m0 := 10, xNorth := 0, fuel := 10, idx := ⟨0, []⟩ }
+example : RevPE.DirInStand peNet := by unfold RevPE.DirInStand; decide
+example : (PE.revise peNet).clusters.map (fun c => c.obs.map (·.active)) = [[true, true, true], [false, true]] ∧
+    (revise (RevPE.netOf peNet)).cls.map (fun c => c.obs.map (·.active)) = [[true, true, true], [false, true]] ∧
+    (revise (RevPE.netOf peNet)).revised.length = 4 := by decide +kernel
+/-- `DirInStand` is necessary: a lone direction in a cluster that is not a `StandPoint` is silenced by
+    `PE.revise` and kept by `revision_observations()` -/
+def peBad : PE.Net Rat := { peNet with clusters := [⟨none, ⟨1, 0, #[1]⟩, [⟨true, .direction, 0, 1, 0, 0⟩]⟩] }
+example : (PE.revise peBad).clusters.map (fun c => c.obs.map (·.active)) = [[false]] ∧
+    (revise (RevPE.netOf peBad)).cls.map (fun c => c.obs.map (·.active)) = [[true]] := by decide +kernel
+/-- hypotheses of the partial "results" theorem on the levelling network of the `PE` examples (one
+    switched-off observation in a three-observation cluster): assembling succeeds, the block is normal -/
+example : RevPE.ActiveCovIdem (PE.revise PE.Ex.net1) := by
+  intro c hc
+  simp only [PE.revise, PE.Ex.net1, PE.reviseFrom, List.mem_cons, List.not_mem_nil, or_false] at hc
+  rcases hc with rfl | rfl <;> rfl
+attribute [local instance] PE.Ex.trigQ in
+example : (match PE.assemble (PE.revise PE.Ex.net1) with | .ok a => some (a.np.m, a.np.n) | .error _ => none) = some (2, 2) ∧
+    (match PE.assemble (RevPE.delObs (PE.revise PE.Ex.net1)) with
+      | .ok a => some (a.np.m, a.np.clusters.map (·.active)) | .error _ => none) = some (2, [[true, true], []]) := by
+  decide +kernel
 
 end Gama.Props.C14
